@@ -500,6 +500,14 @@ impl<'a> Gen<'a> {
             let m = self.pc_meta(&proto);
             body.insert(at, m);
         }
+        // now and then the writer is finalized in the middle (or twice): what follows meets a finalized writer
+        if self.rng.chance(1, 12) {
+            let at = self.rng.below(body.len() as u64 + 1) as usize;
+            body.insert(at, PcStmt::Fin);
+            if self.rng.chance(1, 3) {
+                body.push(PcStmt::Fin);
+            }
+        }
         self.n += 1;
         Stmt::Pc { guid: format!("pc-{}-{}", self.n, gen_string(self.rng)), proto, body, end: self.rng.chance(14, 15) }
     }
@@ -741,10 +749,32 @@ pub fn oracle_program(sink: &mut Sink, line: &str, prog: &Program, run: &Run) {
                 }
                 let opened = r == "ok";
                 k += 1;
+                let mut finalized = false; // a finalize inside the body succeeded
                 for b in body {
-                    if let PcStmt::P(vs) = b {
+                    if matches!(b, PcStmt::Fin) {
                         let r = res(k);
                         if opened {
+                            if r == "panic" {
+                                sink.fail("C10", "writer/panic/pc-finalize", line, "PointCloudWriter::finalize panicked");
+                            } else if finalized && r == "ok" {
+                                sink.fail("C10", "writer/second-finalize-duplicates", line, "a second PointCloudWriter::finalize succeeded: the same point cloud is stored twice");
+                            } else if !finalized && r == "err" {
+                                sink.fail("C01", "writer/pc-finalize-failed", line, "PointCloudWriter::finalize failed");
+                            }
+                            if r == "ok" {
+                                finalized = true;
+                            }
+                        }
+                        k += 1;
+                        continue;
+                    }
+                    if let PcStmt::P(vs) = b {
+                        let r = res(k);
+                        if opened && finalized {
+                            if r == "ok" {
+                                sink.fail("C10", "writer/point-after-finalize-accepted", line, "add_point succeeded on a finalized point cloud writer: the point cannot be stored");
+                            }
+                        } else if opened {
                             let okp = ref_point_ok(proto, vs);
                             if r == "panic" {
                                 sink.fail("C10", "writer/panic/add_point", line, "add_point panicked");
@@ -767,7 +797,9 @@ pub fn oracle_program(sink: &mut Sink, line: &str, prog: &Program, run: &Run) {
                 if opened && *end {
                     if res(k) == "panic" {
                         sink.fail("C10", "writer/panic/pc-finalize", line, "PointCloudWriter::finalize panicked");
-                    } else if res(k) == "err" {
+                    } else if finalized && res(k) == "ok" {
+                        sink.fail("C10", "writer/second-finalize-duplicates", line, "a second PointCloudWriter::finalize succeeded: the same point cloud is stored twice");
+                    } else if !finalized && res(k) == "err" {
                         sink.fail("C01", "writer/pc-finalize-failed", line, "PointCloudWriter::finalize failed");
                     }
                 }
